@@ -37,7 +37,7 @@ h_nw_writbuf(void)
 
 	rc = writbuf(W, writelen);
 
-	if ((size_t)writelen != clen) {
+	if (writelen < 0 || (size_t)writelen != clen) {
 		__CPROVER_assert(W->failed == 1 && g_nwf_calls == f0 + 1 && g_nwr.nstart == n0 && !g_nwr.active,
 		    "after a short or failed write: failed, the failure callback fired once, nothing further is sent");
 	} else {
@@ -46,7 +46,7 @@ h_nw_writbuf(void)
 	}
 	VCOVER(writelen == -1 && rc != 0);
 	VCOVER(writelen >= 0 && (size_t)writelen < clen);
-	VCOVER((size_t)writelen == clen && qn == 0 && rc == 0);
-	VCOVER((size_t)writelen == clen && qn == 2 && rc == 0 && W->curr == A && W->buffers.stqh_first == L);
-	VCOVER((size_t)writelen == clen && qn == 1 && rc == -1);
+	VCOVER(writelen >= 0 && (size_t)writelen == clen && qn == 0 && rc == 0);
+	VCOVER(writelen >= 0 && (size_t)writelen == clen && qn == 2 && rc == 0 && W->curr == A && W->buffers.stqh_first == L);
+	VCOVER(writelen >= 0 && (size_t)writelen == clen && qn == 1 && rc == -1);
 }
